@@ -228,7 +228,6 @@ theorem C18_gen_hash_step (a : E C) :
     exact tie_hash_str P s _
 
 /-- members of the handle classes (include/mp/expr.h) that the loop-carrying handlers call -/
-theorem C18_gen_helper_CallExpr_arg : helperShape_CallExpr_arg = Frozen.helperShape_CallExpr_arg := rfl
 theorem C18_gen_helper_CallExpr_function : helperShape_CallExpr_function = Frozen.helperShape_CallExpr_function := rfl
 theorem C18_gen_helper_CallExpr_num_args : helperShape_CallExpr_num_args = Frozen.helperShape_CallExpr_num_args := rfl
 theorem C18_gen_helper_Function_eq : helperShape_Function_eq = Frozen.helperShape_Function_eq := rfl
@@ -293,6 +292,44 @@ theorem C18_gen_string_capacity (size : Nat) : size < stringInlineBytes + string
 /-- non-vacuity: an empty and a non-empty source into dirty storage -/
 example : cstr (copyRun factoryCopy [] [0x41, 0x42]) = [] ∧
     cstr (copyRun factoryCopy [0x61, 0x62] [0x58, 0x58, 0x58, 0x58]) = [0x61, 0x62] := by decide
+
+/-! ### argument arrays of calls and iterated expressions (round 8)
+
+Generated from `CallExpr::arg/begin/end`, `BasicIteratedExpr::begin/end` (every instantiation), `ExprIterator::operator*`/`++`,
+`BasicIteratedExprBuilder::AddArg`, `BeginIterated<ExprType>`, `BeginCall` and the `Impl::args` declarations.  `GenSem`'s `argAt`
+(`arg(i)` / the i-th iterator position = i-th argument given to the builder) and the translator's reading of the iterator loops as
+index loops over `0 … num_args()-1` rest on these facts. -/
+
+/-- `CallExpr::arg(k)` reads the cell the k-th `AddArg` wrote, for every k. -/
+theorem C18_gen_args_read_is_write (k : Nat) : callArgRead k = argWrite k := by
+  simp only [callArgRead, argWrite]
+
+/-- Iteration: after k increments an iterator obtained from `begin()` dereferences the cell the k-th `AddArg` wrote, and it
+compares equal to `end()` after exactly `num_args()` increments — for calls and for every iterated expression. -/
+theorem C18_gen_args_iteration (n k : Nat) :
+    callBeginOffset + k * iterStep + iterDerefOffset = argWrite k ∧
+      iterBeginOffset + k * iterStep + iterDerefOffset = argWrite k ∧
+      (callBeginOffset + k * iterStep = callEndOffset n ↔ k = n) ∧
+      (iterBeginOffset + k * iterStep = iterEndOffset n ↔ k = n) := by
+  simp only [callBeginOffset, iterBeginOffset, iterStep, iterDerefOffset, argWrite, callEndOffset, iterEndOffset]
+  omega
+
+/-- Every argument cell of an expression with `n` arguments lies inside the inline array plus the (possibly negative) extra
+bytes `BeginIterated(kind, n)` asks for (a pointer has 8 bytes). -/
+theorem C18_gen_args_in_bounds (n k : Nat) (hk : k < n) :
+    (8 : Int) * ((argWrite k : Nat) + 1) ≤ 8 * (argsInline : Nat) + argsExtraBytes n := by
+  simp only [argWrite, argsInline, argsExtraBytes]
+  omega
+
+/-- … and the allocation is tight, also for `n = 0` (the inline cell is given back). -/
+theorem C18_gen_args_allocation_tight (n : Nat) :
+    (8 : Int) * (argsInline : Nat) + argsExtraBytes n = 8 * n := by
+  simp only [argsInline, argsExtraBytes]
+  omega
+
+/-- non-vacuity: the last of three arguments, and the empty argument list (negative extra bytes) -/
+example : (8 : Int) * ((argWrite 2 : Nat) + 1) = 8 * (argsInline : Nat) + argsExtraBytes 3 ∧
+    (8 : Int) * (argsInline : Nat) + argsExtraBytes 0 = 0 := by decide
 
 /-- The recursion equations of the translated comparator have exactly one solution. -/
 theorem C18_gen_equal_unique (f : E C → E C → R)
